@@ -148,6 +148,14 @@ lemma("C10", "substring-match-survives-embedding", {"p": "str", "c": "str", "a":
       ["p in c"], "p in (a + c + b)", "p, c stand for the lowered pattern and content")
 
 
+# ---------------------------------------------------------------- construction: threshold and rate limit are the caller's; the innate signatures are always scanned
+contract(TM + ".__init__", "C10", is_init=True, params={"signatures": "none", "rate_limit": "opt:int", "on_threat": "opt:callback"}, raises=[],
+         ensures={"threshold-and-limit-are-stored-as-given": "self.threshold == threshold and self.enable_adaptive == enable_adaptive and "
+                                                             "(rate_limit is None) == (self.rate_limit is None) and implies(rate_limit is not None, self.rate_limit == rate_limit)",
+                  "innate-signatures-are-installed": "len(self.signatures) == len(Membrane.INNATE_SIGNATURES)",
+                  "starts-without-memory": "len(self._blocked_hashes) == 0 and len(self._learned_patterns) == 0"})
+
+
 def native_replay(rep):
     import os, sys
     sys.path.insert(0, os.path.dirname(os.path.dirname(os.path.abspath(__file__))))
